@@ -270,42 +270,50 @@ def r14_4b(ctx, which, rule="R14.4"):
 
 
 def semicolon_rule(ctx, rule):
-    """finish_named (HTML): a matched name that ends in ';' is always a reference; the legacy exceptions (attribute value followed
-    by '=' or an alphanumeric) apply only after the semicolon test failed; the character after the match comes from name_buf"""
+    """finish_named (HTML): a matched name whose last character is ';' is always a reference; the legacy exceptions (inside an
+    attribute value, followed by '=' or an alphanumeric) leave the characters alone only after that test failed; the last matched
+    character is name_buf[name_len - 1] and the character after the match is the first of name_buf[name_len..]"""
     T = ctx.tables("html")
     cells = mc.to_json({"finish_named": T["charref"]["finish_named"]})["finish_named"]
+    LAST = "self.name_buf()[(self.name_len - 1)..]"
+    NEXT = "self.name_buf()[self.name_len..]"
     n = 0
+    nsemi = 0
     bad = None
     for c in cells:
         g = c["guards"]
-        semi = [v for k, v in g.items() if "matches (_,';',_)" in k]
-        exc = [k for k, v in g.items() if v and ("matches (true,_,Some('='))" in k or "matches (true,_,Some(_))" in k)]
+        if mc._guard_conflict(g, g):
+            continue
         names = [a[0] for a in c["actions"]]
-        unconsume = "unconsume_name" in names
-        matched = any(v and "self.name_match matches Some((_,_))" in k for k, v in g.items()) and gval(g, "(self.name_len > 0)") is True
+        if "panic!" in names:
+            continue
+        matched = any(v and "self.name_match matches Some" in k for k, v in g.items()) and gval(g, "(self.name_len > 0)") is True
         if not matched:
             continue
         n += 1
-        if any(semi) and unconsume:
-            bad = "a reference whose matched name ends in ';' is unconsumed"
-        if exc and not semi:
-            bad = "the attribute exception is applied without first testing that the match does not end in ';' (e.g. &amp;= inside an attribute value stays undecoded)"
-        for k in g:
-            if "matches (true,_," in k or "matches (_,';',_)" in k:
-                if "self.is_consumed_in_attribute" not in k.split(",")[0]:
-                    bad = "the exception does not test is_consumed_in_attribute: " + k[:120]
-                parts = k.split(" matches ")[0]
-                comps = mc._split_top(parts.strip()[1:-1], ",") if parts.strip().startswith("(") else []
-                if len(comps) != 3:
-                    bad = "the legacy-exception test is not over (in attribute, last matched character, next character): " + parts[:200]
-                    continue
-                if not (comps[2].strip() == "None" or comps[2].strip().startswith("Some(self.name_buf()[self.name_len..]")):
-                    bad = "the character after the match is not taken from name_buf[name_len..]: " + comps[2][:160]
-                if not comps[1].strip().startswith("self.name_buf()[(self.name_len - 1)..]"):
-                    bad = "the last matched character is not name_buf[name_len - 1]: " + comps[1][:160]
-    nsemi = sum(1 for c in cells if any("matches (_,';',_)" in k for k in c["guards"]))
+        semi = [(k, v) for k, v in g.items() if re.search(r" matches ';'(#\d+)?$", k) or re.search(r" matches Some\(';'\)(#\d+)?$", k)]
+        for k, v in semi:
+            if not k.startswith(LAST):
+                bad = "the ';' test is made on %s, not on the last matched character name_buf[name_len - 1]" % k[:80]
+        if semi:
+            nsemi += 1
+        unconsume = "unconsume_name" in names
+        if unconsume:
+            if not semi or any(v for k, v in semi):
+                bad = "the characters of a matched name are left alone (unconsume_name) %s: e.g. &amp;= inside an attribute value stays undecoded" % (
+                    "on a path where the name ends in ';'" if semi else "without first testing that the match does not end in ';'")
+                continue
+            in_attr = gval(g, "self.is_consumed_in_attribute")
+            nxt = [(k, v) for k, v in g.items() if v and (re.search(r" matches (Some\()?'='\)?(#\d+)?$", k) or k.split("#")[0].endswith(".is_ascii_alphanumeric()"))]
+            if in_attr is not True:
+                bad = "the legacy exception is applied outside an attribute value"
+            elif not nxt:
+                bad = "the legacy exception is applied without '=' or an alphanumeric following the match"
+            for k, v in nxt:
+                if not k.startswith(NEXT) and not k.startswith("Some(" + NEXT):
+                    bad = "the character after the match is not taken from name_buf[name_len..]: " + k[:120]
     if bad is None and nsemi < 2:
-        bad = "the decision between 'reference' and 'leave the characters' is no longer a test of (in attribute, last matched character, next character) with a ';' case first: it has to be re-reviewed"
+        bad = "the decision between 'reference' and 'leave the characters' no longer tests the last matched character against ';': it has to be re-reviewed"
     ctx.ob(rule, "named-reference-semicolon-before-legacy-exception", bad is None and n >= 6, bad or "%d matched paths: ';' decides first; '=' / alphanumeric exceptions only in attributes and only after it; both characters come from name_buf around name_len" % n,
            "html5ever tokenizer char_ref finish_named")
 
@@ -389,7 +397,10 @@ def run(ctx):
                 if fn in T["helpers"] or fn in h:
                     diffs = []
                     mc.compare_projected({fn: h.get(fn)}, {fn: T["helpers"].get(fn)}, lambda k, st, d: diffs.append((k, d)))
-                    ctx.ob("R14.5", "helpers/fn=%s" % fn + ("/" + diffs[0][0] if diffs else ""), not diffs, diffs[0][1] if diffs else "equals the reference")
+                    if diffs:
+                        ctx.advise("R14.5", "helpers/fn=%s/%s" % (fn, diffs[0][0]), diffs[0][1][:500])
+                    else:
+                        ctx.ob("R14.5", "helpers/fn=%s" % fn, True, "equals the reference")
             _st["programs"] += len(T["charref"])
         ctx.guard("R14.5", "charref/" + which, cmp)
     _st["programs"] += 4
